@@ -26,6 +26,9 @@ def dispatch (j : Json) : R Json := do
   | "stats" => handleStats j
   | "logicle" => handleLogicle j
   | "edges" => handleEdges j
+  | "beads_model" => handleBeadsModel j
+  | "populations" => handlePopulations j
+  | "select_pairs" => handleSelectPairs j
   | "ping" => pure (Json.mkObj [("pong", Json.bool true)])
   | _ => throw s!"unknown op {op}"
 
